@@ -12,7 +12,10 @@ Transcribes
 * `src/onnx_ir/_cloner.py` 76-100, 162-185, 258-287 restricted to the *keys of the value map* (which
   decides whether the clone of the view raises; the structure of the clone itself is property C13);
 * `src/onnx_ir/analysis/_implicit_usage.py` 14-74 (`analyze_implicit_usage`, with the D34 fix: the analysed
-  root is skipped when walking the graph stack).
+  root is skipped when walking the graph stack);
+* (follow-up round) `_cloner.py` 336-362 + `_graph_containers.py` 196-205, 243-248, 285-290, 325-328: the
+  ownership checks of the `Graph(...)` constructor on the clones (`CSt`, `cloneGO`, `Err.cloneOwned`,
+  `extractO` = the pipeline as the code runs it; `extractOF` = the same after the proposed fix D460).
 
 Core Lean only.  Objects are creation indices: `VId` indexes `World.vals`, `NId` indexes `World.nodes`
 (the table of every node of the model under test), graphs are identified by `GId`.  Nested graphs are
@@ -563,6 +566,62 @@ mutual
       | .ok s' => cloneGsO s' gs
 end
 
+mutual
+  /-- the value lists (inputs, initializers, outputs) of the graphs of a tree in the order the clone finishes
+      them: nested graphs first -/
+  def postG : GraphT → List (List VId)
+    | .mk _ ins inits outs ns => postNs ns ++ [ins ++ inits ++ outs]
+  def postNs : List NodeT → List (List VId)
+    | [] => []
+    | n :: ns => postN n ++ postNs ns
+  def postN : NodeT → List (List VId)
+    | .mk _ _ bs => postGs bs
+  def postGs : List GraphT → List (List VId)
+    | [] => []
+    | g :: gs => postG g ++ postGs gs
+end
+
+mutual
+  /-- every node output of the tree, in the order the clone binds them -/
+  def outsAllG : GraphT → List VId
+    | .mk _ _ _ _ ns => outsAllNs ns
+  def outsAllNs : List NodeT → List VId
+    | [] => []
+    | n :: ns => outsAllN n ++ outsAllNs ns
+  def outsAllN : NodeT → List VId
+    | .mk _ outs bs => outsAllGs bs ++ outs
+  def outsAllGs : List GraphT → List VId
+    | [] => []
+    | g :: gs => outsAllG g ++ outsAllGs gs
+end
+
+mutual
+  /-- every graph input and initializer of the tree -/
+  def insInitsG : GraphT → List VId
+    | .mk _ ins inits _ ns => ins ++ inits ++ insInitsNs ns
+  def insInitsNs : List NodeT → List VId
+    | [] => []
+    | n :: ns => insInitsN n ++ insInitsNs ns
+  def insInitsN : NodeT → List VId
+    | .mk _ _ bs => insInitsGs bs
+  def insInitsGs : List GraphT → List VId
+    | [] => []
+    | g :: gs => insInitsG g ++ insInitsGs gs
+end
+
+/-- no value of an earlier list occurs in a later one -/
+def disjFamB : List (List VId) → Bool
+  | [] => true
+  | a :: rest => rest.all (fun b => a.all (fun v => !b.contains v)) && disjFamB rest
+
+/-- decidable hypothesis of `C18_own_pass`: no value is listed (as input, initializer or output) by two graphs
+    of the tree, and no graph input / initializer of the tree is a node output of the tree.  For the nested
+    graphs of a source built through the public API both follow from C01 (a value is owned by at most one graph;
+    inputs and initializers have no producer); for the view itself it says that no boundary value is listed by
+    a nested graph of a kept node and no boundary input is produced by a kept node. -/
+def ownStaticB (t : GraphT) : Bool :=
+  disjFamB (postG t) && (insInitsG t).all (fun v => !(outsAllG t).contains v)
+
 /-- `extract` as the code runs it: the same pipeline with the clone stage that also performs the ownership
     checks of the `Graph(...)` constructors (`cloneGO`).  `extract` above is this function without those checks
     (`C18_extract_owned`: same result whenever this one returns, same error unless this one raises `cloneOwned`). -/
@@ -589,6 +648,60 @@ def extractO (W : World) (T : Target) (ins outs : List Arg) : Except Err View :=
             match cloneGO {} (.mk 0 inputVals inits outputVals (nodes.map W.nodeD)) with
             | .error e => .error e
             | .ok _ => .ok { inputs := inputVals, outputs := outputVals, nodes := nodes, inits := inits }
+
+/-! ## D460: the argument check after the proposed fix (`proposed_fixes/D460.diff`)
+
+The repository refuses a boundary value given BY OBJECT unless `val.graph is graph`, while the same value given
+by name is accepted when a node of the graph reads it (`create_value_mapping` lists node inputs).  The proposed
+fix also accepts a by-object boundary INPUT that a node of the graph reads directly.  `extractO` follows the
+repository as it is; `extractOF` is the same pipeline with the fixed check, and the driver runs whichever the
+harness observed on the real code (request field `d460`), so applying the fix needs no change here. -/
+
+def checkArgF (W : World) (T : Target) (m : NameMap) (isIn : Bool) : Arg → Except Err Unit
+  | .obj v =>
+    if T.kind != Kind.view && W.graphOf v != T.gid &&
+        !(isIn && (T.nodes.flatMap (fun n => (W.nodeD n).ins)).contains v) then .error .notOwned
+    else .ok ()
+  | .name s => if (m.lookup s).isSome then .ok () else .error .nameNotFound
+
+def checkArgsF (W : World) (T : Target) (m : NameMap) (isIn : Bool) : List Arg → Except Err Unit
+  | [] => .ok ()
+  | a :: as =>
+    match checkArgF W T m isIn a with
+    | .error e => .error e
+    | .ok () => checkArgsF W T m isIn as
+
+/-- everything `extract` does after the argument checks (with the ownership checks of the clone) -/
+def extractRest (W : World) (T : Target) (ins outs : List Arg) : Except Err View :=
+  let m := valueMapping W T
+  let inputVals := ins.map (resolveArg m)
+  let outputVals := outs.map (resolveArg m)
+  match outputVals with
+  | [] => .error .noOutputs
+  | o0 :: _ =>
+    match W.graphOf o0 with
+    | none => .error .noParent
+    | some parent =>
+      match findSubgraph W (T.kind == Kind.function) T.nodes inputVals outputVals parent with
+      | .error e => .error e
+      | .ok (nodes, inited) =>
+        match viewInits W inited [] with
+        | .error e => .error e
+        | .ok im =>
+          let inits := im.map (·.2)
+          match cloneGO {} (.mk 0 inputVals inits outputVals (nodes.map W.nodeD)) with
+          | .error e => .error e
+          | .ok _ => .ok { inputs := inputVals, outputs := outputVals, nodes := nodes, inits := inits }
+
+/-- `extract` after D460.diff -/
+def extractOF (W : World) (T : Target) (ins outs : List Arg) : Except Err View :=
+  let m := valueMapping W T
+  match checkArgsF W T m true ins with
+  | .error e => .error e
+  | .ok () =>
+    match checkArgsF W T m false outs with
+    | .error e => .error e
+    | .ok () => extractRest W T ins outs
 
 /-- extractor, post-processing of the clone (D153): the boundary inputs whose producer is an extracted node.
     The clone produces them a second time; their consumers are rewired to the graph input and the recomputed
